@@ -1,1 +1,214 @@
-//! (under construction)
+//! Subprocess driver for the real binaries + parser for the truth-table dialect `rsbdd -t` prints.
+
+use std::io::{Read, Write};
+use std::path::Path;
+use std::process::{Command, Stdio};
+use std::time::{Duration, Instant};
+
+#[derive(Debug, Clone)]
+pub struct RunOut {
+    /// exit code if the process exited normally
+    pub code: Option<i32>,
+    /// terminating signal otherwise
+    pub signal: Option<i32>,
+    pub stdout: Vec<u8>,
+    pub stderr: Vec<u8>,
+    /// the per-process watchdog fired (=> inconclusive for that case, never a violation)
+    pub timed_out: bool,
+}
+
+impl RunOut {
+    pub fn stdout_str(&self) -> String {
+        String::from_utf8_lossy(&self.stdout).to_string()
+    }
+    pub fn stderr_str(&self) -> String {
+        String::from_utf8_lossy(&self.stderr).to_string()
+    }
+    /// Rust panic (exit status 101) or death by signal (abort, stack overflow => SIGABRT/SIGSEGV)
+    pub fn crashed(&self) -> bool {
+        !self.timed_out && (self.code == Some(101) || self.signal.is_some())
+    }
+    /// the H1 budget fired in the binary (deterministic; case is out of budget, not judged)
+    pub fn budget_exceeded(&self) -> bool {
+        self.code == Some(97) && self.stderr_str().contains("VERIF-BUDGET")
+    }
+    pub fn ok(&self) -> bool {
+        self.code == Some(0)
+    }
+    pub fn status_string(&self) -> String {
+        if self.timed_out {
+            "watchdog".to_string()
+        } else if let Some(c) = self.code {
+            format!("exit {}", c)
+        } else {
+            format!("signal {}", self.signal.unwrap_or(0))
+        }
+    }
+    /// first line of stderr that looks like a panic message, for signatures
+    pub fn panic_site(&self) -> String {
+        let e = self.stderr_str();
+        for l in e.lines() {
+            if let Some(p) = l.find("panicked at ") {
+                let rest = &l[p + 12..];
+                let loc = rest.trim_end_matches(':');
+                let short = loc.rfind("/src/").map(|i| &loc[i + 1..]).unwrap_or(loc);
+                // drop the column
+                let mut parts: Vec<&str> = short.split(':').collect();
+                if parts.len() >= 3 {
+                    parts.truncate(2);
+                }
+                return parts.join(":");
+            }
+        }
+        if e.contains("stack overflow") {
+            return "stack-overflow".to_string();
+        }
+        self.status_string()
+    }
+}
+
+/// Run a binary with a budget (RSBDD_VERIF_BUDGET) and a generous watchdog.
+pub fn run(bin: &Path, args: &[String], stdin: Option<&[u8]>, cwd: Option<&Path>, budget: Option<(u64, u64)>, watchdog: Duration) -> RunOut {
+    let mut cmd = Command::new(bin);
+    cmd.args(args).stdin(if stdin.is_some() { Stdio::piped() } else { Stdio::null() }).stdout(Stdio::piped()).stderr(Stdio::piped());
+    cmd.env("RUST_BACKTRACE", "0");
+    cmd.env_remove("RSBDD_VERIF_BUDGET");
+    if let Some((s, f)) = budget {
+        cmd.env("RSBDD_VERIF_BUDGET", format!("{},{}", s, f));
+    }
+    if let Some(d) = cwd {
+        cmd.current_dir(d);
+    }
+    let mut child = match cmd.spawn() {
+        Ok(c) => c,
+        Err(e) => {
+            return RunOut { code: None, signal: None, stdout: vec![], stderr: format!("HARNESS: cannot spawn {}: {}", bin.display(), e).into_bytes(), timed_out: true };
+        }
+    };
+    let mut so = child.stdout.take().unwrap();
+    let mut se = child.stderr.take().unwrap();
+    let h_out = std::thread::spawn(move || {
+        let mut b = Vec::new();
+        let _ = so.read_to_end(&mut b);
+        b
+    });
+    let h_err = std::thread::spawn(move || {
+        let mut b = Vec::new();
+        let _ = se.read_to_end(&mut b);
+        b
+    });
+    if let Some(input) = stdin {
+        if let Some(mut si) = child.stdin.take() {
+            let data = input.to_vec();
+            std::thread::spawn(move || {
+                let _ = si.write_all(&data);
+            });
+        }
+    }
+    let start = Instant::now();
+    let mut timed_out = false;
+    let status = loop {
+        match child.try_wait() {
+            Ok(Some(s)) => break Some(s),
+            Ok(None) => {
+                if start.elapsed() > watchdog {
+                    let _ = child.kill();
+                    let _ = child.wait();
+                    timed_out = true;
+                    break None;
+                }
+                let el = start.elapsed();
+                std::thread::sleep(if el < Duration::from_millis(20) { Duration::from_micros(300) } else { Duration::from_millis(5) });
+            }
+            Err(_) => {
+                timed_out = true;
+                break None;
+            }
+        }
+    };
+    let stdout = h_out.join().unwrap_or_default();
+    let stderr = h_err.join().unwrap_or_default();
+    let (code, signal) = match status {
+        Some(s) => {
+            use std::os::unix::process::ExitStatusExt;
+            (s.code(), s.signal())
+        }
+        None => (None, None),
+    };
+    RunOut { code, signal, stdout, stderr, timed_out }
+}
+
+pub fn sargs(a: &[&str]) -> Vec<String> {
+    a.iter().map(|s| s.to_string()).collect()
+}
+
+// ------------------------------------------------------------------------- truth table dialect
+
+#[derive(Debug, Clone, PartialEq, Eq)]
+pub enum Cell {
+    True,
+    False,
+    Any,
+}
+
+#[derive(Debug, Clone)]
+pub struct Table {
+    /// column names without the final `*`
+    pub header: Vec<String>,
+    pub rows: Vec<(Vec<Cell>, bool)>,
+}
+
+/// Parse the output of `rsbdd -t`: a header line `| a | b | * |`, a rule line `|---|`, rows.
+/// Returns (table, remaining lines after the table).
+pub fn parse_table(lines: &[&str]) -> Result<(Table, usize), String> {
+    if lines.len() < 2 {
+        return Err("no table header".to_string());
+    }
+    let split = |l: &str| -> Result<Vec<String>, String> {
+        let l = l.trim_end();
+        if !l.starts_with('|') || !l.ends_with('|') {
+            return Err(format!("not a table line: {:?}", l));
+        }
+        Ok(l[1..l.len() - 1].split('|').map(|c| c.trim().to_string()).collect())
+    };
+    let mut header = split(lines[0])?;
+    if header.last().map(|s| s.as_str()) != Some("*") {
+        return Err(format!("header does not end with `*`: {:?}", lines[0]));
+    }
+    header.pop();
+    let rule = lines[1].trim_end();
+    if !rule.starts_with("|-") || !rule.chars().all(|c| c == '|' || c == '-') {
+        return Err(format!("no rule line under the header: {:?}", rule));
+    }
+    if rule.matches('|').count() != header.len() + 2 {
+        return Err(format!("rule line has {} columns, header {}", rule.matches('|').count() - 1, header.len() + 1));
+    }
+    let mut rows = Vec::new();
+    let mut used = 2;
+    for l in &lines[2..] {
+        if !l.starts_with('|') {
+            break;
+        }
+        let cells = split(l)?;
+        if cells.len() != header.len() + 1 {
+            return Err(format!("row with {} cells under a header of {}: {:?}", cells.len(), header.len() + 1, l));
+        }
+        let mut cs = Vec::new();
+        for c in &cells[..cells.len() - 1] {
+            cs.push(match c.as_str() {
+                "True" => Cell::True,
+                "False" => Cell::False,
+                "Any" => Cell::Any,
+                other => return Err(format!("unknown cell {:?} in row {:?}", other, l)),
+            });
+        }
+        let res = match cells[cells.len() - 1].as_str() {
+            "True" => true,
+            "False" => false,
+            other => return Err(format!("unknown result cell {:?}", other)),
+        };
+        rows.push((cs, res));
+        used += 1;
+    }
+    Ok((Table { header, rows }, used))
+}
